@@ -356,3 +356,101 @@ func init() {
 		return res
 	})
 }
+
+func init() {
+	// ConcurrentVerify: a genuinely signed structure and a tampered copy of the same length are parsed into DISTINCT values;
+	// half of the goroutines verify the genuine one, the other half the tampered one, at the same time.  The tampered one
+	// must never verify (C05), the genuine one always (results equal the sequential ones, C18), and no race is reported.
+	register("ConcurrentVerify", func(s *Session, a Args) Res {
+		signed, serr := buildSigned(s, a)
+		if serr != "" {
+			return Res{"setup": false, "err": serr}
+		}
+		tampered := append([]byte{}, signed...)
+		off := a.Int("flipoff")
+		if off < 0 || off >= len(tampered) {
+			return Res{"setup": false, "err": "flip offset"}
+		}
+		tampered[off] ^= 0x01
+		n, reps := a.Int("n"), a.Int("reps")
+		if n < 2 {
+			n = 2
+		}
+		raceBefore := raceLogSize()
+		// every goroutine owns its value (parsed from its own copy)
+		type job struct {
+			genuine bool
+			val     any
+		}
+		jobs := make([]job, 2*n)
+		for i := range jobs {
+			src := signed
+			if i%2 == 1 {
+				src = tampered
+			}
+			_, _, _ = src, i, jobs
+			rd := readers[a.Str("fn")]
+			o := rd(append([]byte{}, src...), a)
+			if !o.OK || o.Val == nil {
+				if i%2 == 1 {
+					// the tampered copy may simply not parse: then there is nothing to verify concurrently
+					return Res{"setup": true, "tampered_parses": false, "false_accepts": 0, "false_rejects": 0, "race": false, "race_report": "", "nruns": 0}
+				}
+				return Res{"setup": false, "err": "genuine structure does not parse: " + o.Err}
+			}
+			jobs[i] = job{i%2 == 0, o.Val}
+		}
+		verify := func(v any) bool {
+			rv := reflect.ValueOf(v)
+			for _, name := range []string{"Verify", "VerifySignature"} {
+				m := rv.MethodByName(name)
+				if m.IsValid() && m.Type().NumIn() == 0 {
+					return verifySuccess(m.Call(nil))
+				}
+			}
+			return false
+		}
+		var wg sync.WaitGroup
+		gate := make(chan struct{})
+		var mu sync.Mutex
+		falseAccepts, falseRejects, panics := 0, 0, 0
+		for i := range jobs {
+			wg.Add(1)
+			go func(j job) {
+				defer wg.Done()
+				defer func() {
+					if p := recover(); p != nil {
+						mu.Lock()
+						panics++
+						mu.Unlock()
+					}
+				}()
+				<-gate
+				fa, fr := 0, 0
+				for r := 0; r < reps; r++ {
+					ok := verify(j.val)
+					if ok && !j.genuine {
+						fa++
+					}
+					if !ok && j.genuine {
+						fr++
+					}
+				}
+				mu.Lock()
+				falseAccepts += fa
+				falseRejects += fr
+				mu.Unlock()
+			}(jobs[i])
+		}
+		close(gate)
+		wg.Wait()
+		seqGenuine, seqTampered := verify(jobs[0].val), verify(jobs[1].val)
+		raced := raceLogSize() > raceBefore
+		rep := ""
+		if raced {
+			rep = raceLogTail()
+		}
+		return Res{"setup": true, "tampered_parses": true, "false_accepts": falseAccepts, "false_rejects": falseRejects, "panics": panics,
+			"seq_genuine": seqGenuine, "seq_tampered": seqTampered, "race": raced, "race_report": rep, "nruns": 2 * n * reps}
+	})
+}
